@@ -471,8 +471,8 @@ def run(ctx):
                 nuni += rest * len(tree_sets)
 
     if not ctx.thorough:
-        alpha = [["none", "contact", "weld", "tendonlimit"]] * 6
-        trees = [tk for tk in itertools.product(["none", "frictionloss"], repeat=4)]
+        alpha = [["none", "contact", "weld", "jointeq", "tendonlimit"]] * 6
+        trees = [("none",) * 4, ("frictionloss",) * 4, ("frictionloss", "none") * 2, ("none", "frictionloss") * 2]
         add_universe(4, alpha, trees)
     else:
         alpha = [PAIR_KINDS] * 6
@@ -502,7 +502,7 @@ def run(ctx):
                 "components or >=4 vertices; (engine) scene with >=1 tree-tree coupling and (>=2 islands or >=2 couplings)"
                 % (depth, " and n=6 depth 5" if ctx.thorough else "", PAIR_KINDS, TREE_KINDS,
                    "full pair alphabet^6 x {all none, one tree kind on every non-empty subset of trees}; T=5: all 2^10 graphs x 5 kind rotations x "
-                   "{none,frictionloss}^5" if ctx.thorough else "pair alphabet {none,contact,weld,tendonlimit}^6 x {none,frictionloss}^4"))
+                   "{none,frictionloss}^5" if ctx.thorough else "pair alphabet {none,contact,weld,jointeq,tendonlimit}^6 x frictionloss on {no, all, even, odd} trees"))
     ctx.assumptions = ["a row's trees are the trees owning the non-zero columns of efc_J (generic axes: no accidental zeros), rows grouped per (efc_type, efc_id)",
                        "universe model: couplings are switched through eq_active, pair_margin, tendon_range, jnt_range, dof_frictionloss only",
                        "flex stiffness coupling not enumerated"]
